@@ -226,6 +226,7 @@ func genC06(r *rand.Rand, tier string, idx int) *World {
 			ps.Restarts = 0
 		}
 		ps.RestartAgoSec = pick(r, 5, 60, 121, 300, 601)
+		ps.NoLastTerm = chance(r, 0.15) // the kubelet no longer reports the previous run of the container
 		if ps.Kind == "cannotstart" {
 			ps.Waiting = pick(r, "ImagePullBackOff", "ErrImagePull", "CreateContainerConfigError", "PostStartHookError", "PodInitializing", "CrashLoopBackOff")
 		}
@@ -431,8 +432,14 @@ func genC15(r *rand.Rand, tier string, idx int) *World {
 	b, _ := json.Marshal(restarts)
 	w.Extra["restarts"] = string(b)
 	can := &CanaryDef{Replicas: pick(r, "1", "2", "3", "4", "25%", "50%", "100%"), Duration: "6h"}
-	if chance(r, 0.4) {
+	switch r.IntN(5) {
+	case 0, 1:
 		can.NodeSelector = map[string]string{"canary": "yes"}
+	case 2:
+		can.NodeSelectorExpr = []string{pick(r, "canary Exists", "canary DoesNotExist", "zone In a,b", "zone NotIn c", "pool DoesNotExist")}
+		if chance(r, 0.3) {
+			can.NodeSelector = map[string]string{"pool": "x"}
+		}
 	}
 	switch r.IntN(4) {
 	case 0:
@@ -556,7 +563,8 @@ func genC17(r *rand.Rand, tier string, idx int) *World {
 		}
 		w.Nodes = append(w.Nodes, nd)
 	}
-	e := &EDSDef{NS: "ns1", Name: "foo", Initial: "A", Templates: map[string]*TemplateDef{"A": {Letter: "A"}, "B": {Letter: "B"}}}
+	tplKind := pick(r, "", "", "hasZone-or-not", "preferred-only")
+	e := &EDSDef{NS: "ns1", Name: "foo", Initial: "A", Templates: map[string]*TemplateDef{"A": {Letter: "A", AffinityKind: tplKind}, "B": {Letter: "B", AffinityKind: tplKind}}}
 	e.Strategy = StrategyDef{MaxUnavailable: pick(r, "100%", "50%", "3"), SlowStartIncrease: "100%", SlowStartInterval: "10s", ReconcileFrequency: "10s"}
 	if chance(r, 0.4) {
 		e.Strategy.Canary = &CanaryDef{Replicas: pick(r, "1", "3"), Duration: "10m"}
@@ -770,11 +778,11 @@ func genC09Inject(r *rand.Rand, tier string, idx int) *World {
 	e := &EDSDef{NS: "ns1", Name: "foo", Initial: "A", Templates: map[string]*TemplateDef{"A": {Letter: "A"}, "B": {Letter: "B"}}}
 	e.Strategy = StrategyDef{
 		SlowStartInterval:  pick(r, "1s", "10s", "1m", "5m"),
-		SlowStartIncrease:  pick(r, "1", "2", "5", "10%", "50%"),
+		SlowStartIncrease:  pick(r, "1", "2", "5", "10%", "50%", "1", "2", "5", "10%", "50%", "0", "0%"),
 		ReconcileFrequency: pick(r, "1s", "10s", "1m"),
 		MaxUnavailable:     pick(r, "1", "3", "25%", "100%"),
 	}
-	e.Strategy.MaxParallel = i32(pick(r, int32(1), 2, 5, 250))
+	e.Strategy.MaxParallel = i32(pick(r, int32(1), 2, 5, 250, 1, 2, 5, 250, 0))
 	w.EDS = []*EDSDef{e}
 	w.Extra["requests"] = fmt.Sprint(5 + r.IntN(16))
 	w.Extra["update"] = pick(r, "0", "1", "2", "2", "3")
